@@ -29,18 +29,22 @@ KNOWN = {}
 
 INV = ("TypeOK", "Total", "StreamsStayOpen")
 PROPS = ("ListsWherePromised", "UnsupportedIsValueError", "SupportedSucceeds", "RouteMatchesOtype", "NameHonoured",
-         "StreamGrowsByText", "AppendAccumulates")
-ACTIONS = ("Load", "DumpPathB", "DumpStreamB", "Dumps", "LoadBack")
-DEVIATIONS = ("DevLoadsAll", "DevOtype", "DevName", "DevError", "DevClosed", "DevRaises", "DevMode")
+         "StreamGrowsByText", "AppendAccumulates", "LoadsCurrentContent")
+ACTIONS = ("Load", "DumpPathB", "DumpStreamB", "Dumps", "LoadBack", "Replace", "LoadSrc")
+DEVIATIONS = ("DevLoadsAll", "DevOtype", "DevName", "DevError", "DevClosed", "DevRaises", "DevMode", "DevStale")
+SRCPATHS = {"sxyz": "xyz", "smol2": "mol2", "scdxml": "cdxml", "ssdf": "sdf", "szzz": "zzz"}
 PATHS = {"quick": {"pxyz": "xyz", "psdf": "sdf"}, "thorough": {"pxyz": "xyz", "pmol2": "mol2", "psdf": "sdf"}}
-DOC_FMT = {"x1": "xyz", "xk": "xyz", "xdat": "xyz", "xh": "xyz", "m1": "mol2", "mk": "mol2", "mh": "mol2", "c1": "cdxml", "u": "sdf"}
-DOC_SUFFIX = {"x1": "xyz", "xk": "xyz", "xdat": "zzz", "xh": "xyz", "m1": "mol2", "mk": "mol2", "mh": "sdf", "c1": "cdxml", "u": "sdf"}
+DOC_FMT = {"x1": "xyz", "xk": "xyz", "xdat": "xyz", "xh": "xyz", "m1": "mol2", "mk": "mol2", "mh": "mol2", "c1": "cdxml",
+           "c2": "cdxml", "u": "sdf"}
+DOC_SUFFIX = {"x1": "xyz", "xk": "xyz", "xdat": "zzz", "xh": "xyz", "m1": "mol2", "mk": "mol2", "mh": "sdf", "c1": "cdxml",
+              "c2": "cdxml", "u": "sdf"}
 
 
 def mc_cfg(tier, facts, dev="DevNone"):
     big = tier == "thorough" and dev == "DevNone"
     return dict(spec="Spec", constants={"Objs": "<- ObjsM", "Docs": "<- DocsT" if big else "<- DocsQ",
                                         "Paths": "<- PathsT" if big else "<- PathsM", "Streams": "<- StreamsM",
+                                        "SrcPaths": "<- SrcsM", "MaxReplace": 3 if big else 2,
                                         "MaxDumps": 3 if big else 2, "Deviations": f"<- {dev}", **facts},
                 invariants=INV, properties=PROPS, view="View")
 
@@ -62,15 +66,15 @@ def signature(v):
     a, o = v["action"], v["observed_outcome"]
     exp = (v.get("allowed") or [{}])[0].get("act", {})
     first = next((k for k in ("out", "shape", "cls", "nameok", "count", "agrees", "val") if k in o and k in exp and o[k] != exp[k]), "obs")
-    if a["act"] in ("load", "loadback"):
+    if a["act"] in ("load", "loadback", "loadsrc"):
         cdx = DOC_FMT.get(a.get("doc"), a.get("fmt")) == "cdxml"
-        return ("load", a["fn"] if first in ("out", "shape", "count") else "*", a.get("otype") in ("ensemble", "ConformerEnsemble"),
+        return (a["act"] if a["act"] == "loadsrc" else "load", a["fn"] if first in ("out", "shape", "count") else "*", a.get("otype") in ("ensemble", "ConformerEnsemble"),
                 cdx and a.get("keyed", False), first, o.get("out"))
     return (a["act"], a.get("tkind") == "stream", o.get("out"), exp.get("out"), first)
 
 
 def direction_a(tier, ev, rep, lab):
-    facts = {k: lab.facts[k] for k in ("NEns", "NXk", "NMk", "NCdx", "NXh")}
+    facts = {k: lab.facts[k] for k in ("NEns", "NXk", "NMk", "NCdx", "NCdx2", "NXh")}
     cfg = mc_cfg(tier, facts)
     # TLC on the model (properties; one run per named deviation: non-vacuity) runs beside the emission and the replay
     pool = ThreadPoolExecutor(3)
@@ -88,7 +92,8 @@ def direction_a(tier, ev, rep, lab):
         if kind == "file":                                # second pass: the dump part again, streams = real files
             sub = [e for e in edges if e["act"]["act"] == "dump"]
             gg = replay.Graph(sub, key_fields_drop=("out",))
-        stats, viol, samples = walk(gg, lambda: DispatchAdapter(lab, paths, ("s",), kind), sig=signature, per_sig=1)
+        stats, viol, samples = walk(gg, lambda: DispatchAdapter(lab, paths, ("s",), kind, SRCPATHS), sig=signature, per_sig=1,
+                                    revisit=True)
         for k in total:
             total[k] += stats[k]
         ev.cov.setdefault("replay", {})[kind] = stats
@@ -133,13 +138,13 @@ TRACE_INV = ("TypeOK", "StreamsStayOpen")
 
 def trace_cfg():
     return dict(spec="TraceSpec", constants={"Objs": "<- ObjsT", "Docs": "<- DocsT", "Paths": "<- PathsT", "Streams": "<- StreamsT",
-                                             "MaxDumps": 100000, "Deviations": "<- DevNone"}, invariants=TRACE_INV)
+                                             "SrcPaths": "<- SrcsT", "MaxReplace": 100000, "MaxDumps": 100000, "Deviations": "<- DevNone"}, invariants=TRACE_INV)
 
 
 def doc_table(lab):
     n = {"x1": 1, "xk": lab.facts["NXk"], "xdat": lab.facts["NXk"], "m1": 1, "mk": lab.facts["NMk"], "c1": lab.facts["NCdx"],
-         "u": 1, "xh": lab.facts["NXh"], "mh": lab.facts["NXh"]}
-    return {d: {"fmt": DOC_FMT[d], "suffix": DOC_SUFFIX[d], "n": n[d], "hom": d not in ("c1", "xh", "mh")} for d in DOC_FMT}
+         "c2": lab.facts["NCdx2"], "u": 1, "xh": lab.facts["NXh"], "mh": lab.facts["NXh"]}
+    return {d: {"fmt": DOC_FMT[d], "suffix": DOC_SUFFIX[d], "n": n[d], "hom": d not in ("c1", "c2", "xh", "mh")} for d in DOC_FMT}
 
 
 def rand_script(rnd, lab, length):
@@ -149,7 +154,21 @@ def rand_script(rnd, lab, length):
     sc = []
     for _ in range(length):
         r = rnd.random()
-        if r < 0.5:
+        if r < 0.12:                                        # rewrite a source path in place: write, load, REwrite, load twice
+            sp = rnd.choice(("scdxml", "scdxml", "sxyz", "smol2", "ssdf", "szzz"))
+            ds = sorted(d for d in DOC_SUFFIX if DOC_SUFFIX[d] == SRCPATHS[sp])
+            ld = lambda: {"op": "loadsrc", "fn": rnd.choice(("load", "load_all")), "sp": sp, "fmtarg": rnd.choice(("suffix", "content")),
+                          "src": rnd.choice(("str", "Path")), "otype": rnd.choice(("molecule", "ensemble", "Structure")),
+                          "named": rnd.random() < 0.5, "keyed": rnd.random() < 0.3}
+            d1 = rnd.choice(ds)
+            d2 = rnd.choice([d for d in ds if d != d1] or ds)
+            sc += [{"op": "replace", "sp": sp, "doc": d1}, ld(), {"op": "replace", "sp": sp, "doc": d2}, ld(), ld()]
+        elif r < 0.30:                                      # ... and load it (again): the answer is for what it holds now
+            sc.append({"op": "loadsrc", "fn": rnd.choice(("load", "load_all")), "sp": rnd.choice(sorted(SRCPATHS)),
+                       "fmtarg": rnd.choice(("suffix", "content")), "src": rnd.choice(("str", "Path")),
+                       "otype": rnd.choice(("molecule", "ensemble", "Molecule", "ConformerEnsemble", "Structure")),
+                       "named": rnd.random() < 0.5, "keyed": rnd.random() < 0.3})
+        elif r < 0.6:
             if rnd.random() < 0.35:
                 sc.append({"op": "dump", "obj": rnd.choice(objs), "tgt": rnd.choice(BSTREAMS), "tkind": "stream",
                            "fmtarg": rnd.choice(("xyz", "mol2", "xyz", "mol2", "none", "sdf", "zzz", "cdxml")), "mode": "default"})
@@ -157,9 +176,9 @@ def rand_script(rnd, lab, length):
                 sc.append({"op": "dump", "obj": rnd.choice(objs), "tgt": rnd.choice(sorted(BPATHS)), "tkind": rnd.choice(("str", "Path")),
                            "fmtarg": rnd.choice(("none", "none", "xyz", "mol2", "sdf", "zzz", "cdxml")),
                            "mode": rnd.choice(("default", "default", "a", "w"))})
-        elif r < 0.58:
+        elif r < 0.66:
             sc.append({"op": "dumps", "obj": rnd.choice(objs), "fmtarg": rnd.choice(("xyz", "mol2", "sdf", "zzz", "cdxml"))})
-        elif r < 0.8:
+        elif r < 0.84:
             sc.append({"op": "loadback", "fn": rnd.choice(("load", "load_all")), "tgt": rnd.choice(sorted(BPATHS)),
                        "otype": rnd.choice(("molecule", "ensemble", "Molecule", "ConformerEnsemble", "Structure")),
                        "named": rnd.random() < 0.5})
@@ -174,9 +193,9 @@ def rand_script(rnd, lab, length):
     return sc
 
 
-def load_offered(op, docs):
-    """The guards of Dispatch!LoadAny on the inputs (so that no event is produced for a cell the table does not have)."""
-    d = docs[op["doc"]]
+def load_offered(op, docs, doc=None):
+    """The guards of Dispatch!Offered on the inputs (so that no event is produced for a cell the table does not have)."""
+    d = docs[doc or op["doc"]]
     fmt = d["suffix"] if op["fmtarg"] == "suffix" else d["fmt"] if op["fmtarg"] == "content" else op["fmtarg"]
     ce = op["otype"] in ("ensemble", "ConformerEnsemble")
     if fmt == "cdxml" and op["fn"] not in ("load", "load_all"):
@@ -191,7 +210,7 @@ def load_offered(op, docs):
 
 
 def execute(lab, script, kind):
-    ad = DispatchAdapter(lab, BPATHS, BSTREAMS, kind)
+    ad = DispatchAdapter(lab, BPATHS, BSTREAMS, kind, SRCPATHS)
     docs = doc_table(lab)
     evs = []
     try:
@@ -215,6 +234,20 @@ def execute(lab, script, kind):
                              lab.candidate_routes(op["fn"], eff) if eff in ("xyz", "mol2", "cdxml") else ())
                 evs.append({"ev": "load", **{k: op[k] for k in ("fn", "doc", "fmtarg", "src", "otype", "named", "keyed")},
                             **{k: r.get(k) for k in ("out", "shape", "cls", "count", "nameok", "agree", "exc") if k in r}})
+            elif o == "replace":
+                ad.apply({"act": "replace", "sp": op["sp"], "doc": op["doc"]})
+                evs.append({"ev": "replace", "sp": op["sp"], "doc": op["doc"], "srcs": ad.state()["srcs"]})
+            elif o == "loadsrc":
+                cur = ad.current_doc(op["sp"])
+                if cur is None or not load_offered(op, docs, cur):
+                    continue
+                path, fmt = ad.srcp[op["sp"]], ad._fmt(op["fmtarg"], cur)
+                eff = DOC_SUFFIX[cur] if op["fmtarg"] == "suffix" else DOC_FMT[cur]
+                key = ad.second_key(path) if op["keyed"] else None
+                r = lab.load(op["fn"], path, fmt, op["src"], op["otype"], op["named"], key,
+                             lab.candidate_routes(op["fn"], eff) if eff in ("xyz", "mol2", "cdxml") else ())
+                evs.append({"ev": "loadsrc", **{k: op[k] for k in ("fn", "sp", "fmtarg", "src", "otype", "named", "keyed")},
+                            **{k: r.get(k) for k in ("out", "shape", "cls", "count", "nameok", "agree", "exc") if k in r}})
             elif o == "loadback":
                 st = ad.state()["files"][op["tgt"]]["content"]
                 fm = {t[1] for t in st}
@@ -233,14 +266,14 @@ def execute(lab, script, kind):
 
 
 def show(e):
-    return {k: v for k, v in e.items() if k not in ("files", "streams")}
+    return {k: v for k, v in e.items() if k not in ("files", "streams", "srcs")}
 
 
 def direction_b(tier, seed, ev, rep, lab):
     rnd = random.Random(seed * 104729 + 9)
-    n = 150 if tier == "quick" else 1500
+    n = 110 if tier == "quick" else 1200
     t0 = time.time()
-    tables = {"objs": lab.obj_table(), "docs": doc_table(lab), "paths": BPATHS, "streams": list(BSTREAMS)}
+    tables = {"objs": lab.obj_table(), "docs": doc_table(lab), "paths": BPATHS, "streams": list(BSTREAMS), "srcpaths": SRCPATHS}
     scripts = [(f"h{i}", rand_script(rnd, lab, rnd.randint(3, 12)), ("stringio", "file")[i % 2]) for i in range(n)]
     traces = [{"tid": tid, **tables, "ev": execute(lab, sc, kind)} for tid, sc, kind in scripts]
     t1 = time.time()
@@ -302,7 +335,7 @@ def do_replay(path):
     lab = DispatchLab(doc.get("seed", 0), extra_objs=4 if doc.get("tier", "quick") == "quick" else 8)
     try:
         if doc["kind"] == "replay-dispatch":
-            ad = DispatchAdapter(lab, PATHS[doc.get("tier", "quick")], ("s",), doc.get("stream_kind", "stringio"))
+            ad = DispatchAdapter(lab, PATHS[doc.get("tier", "quick")], ("s",), doc.get("stream_kind", "stringio"), SRCPATHS)
             try:
                 res = replay.run_path(ad, doc["path"])
             finally:
@@ -321,7 +354,8 @@ def do_replay(path):
             return 1
         if doc["kind"] == "trace-dispatch":
             evs = execute(lab, doc["script"], doc["stream_kind"])
-            tables = {"objs": lab.obj_table(), "docs": doc_table(lab), "paths": BPATHS, "streams": list(BSTREAMS)}
+            tables = {"objs": lab.obj_table(), "docs": doc_table(lab), "paths": BPATHS, "streams": list(BSTREAMS),
+                      "srcpaths": SRCPATHS}
             verdicts, _ = T.validate("DispatchTrace", [{"tid": doc["tid"], **tables, "ev": evs}], trace_cfg(), tag="c09rp")
             v, l = verdicts[doc["tid"]]
             print(json.dumps({"tid": doc["tid"], "verdict": v, "stuck_at": l,
